@@ -142,6 +142,15 @@ func (p *Processor) ChargingDataCreate(
 	self := chf_context.GetSelf()
 	ueId := chargingData.SubscriberIdentifier
 
+	if chargingData.NfConsumerIdentification == nil {
+		logger.ChargingdataPostLog.Errorf("Mandatory nfConsumerIdentification is missing")
+		problemDetails := &models.ProblemDetails{
+			Status: http.StatusBadRequest,
+			Cause:  "MANDATORY_IE_MISSING",
+		}
+		return nil, "", problemDetails
+	}
+
 	// Open CDR
 	// ChargingDataRef(charging session id):
 	// A unique identifier for a charging data resource in a PLMN
